@@ -54,7 +54,7 @@ def run(ctx):
     q = ctx.quick()
     pool = concurrent.futures.ThreadPoolExecutor(max_workers=10)
     jobs = {}
-    maxt = 2 if q else 3
+    maxt = 1 if q else 3
     jobs["gen_sound"] = pool.submit(lib.run_tlc, ctx, "HandshakeGen", "HandshakeGen.cfg", _sub("sound", maxt), tag="gen_sound",
                                     workers=4, timeout=900, env=JVM)
     if not q:
@@ -63,30 +63,40 @@ def run(ctx):
         jobs["mc_neg_space"] = pool.submit(lib.run_tlc, ctx, "Handshake", "Handshake_mc.cfg", _sub("neg", 7),
                                            tag="mc_neg_space_all_tampers", workers=4, timeout=900, env=JVM)
     negf = pool.submit(neg_matrix, ctx, SOUND_DEVS)
-    # compile the harness while TLC runs
-    warm = pool.submit(lambda: lib.run_go(ctx, "server", "TestVerifC06Warm", tag="warm", prefixes=("c06", "c07", "shared")))
-    res = {k: f.result() for k, f in jobs.items()}
-    warm.result()
-    pool.shutdown(wait=False)
-    negr, broken = negf.result()
-    for d in SOUND_DEVS:
-        want = "AdminGate" if d == "AdminNoSid" else "Soundness"
-        if want not in broken.get(d, set()):
-            raise lib.Inconclusive("deviation %s does not break %s in the model (breaks %s): the invariant would be vacuous" % (d, want, broken.get(d)))
-    ctx.log("vacuity: %s (%d states, %.1fs)" % ({d: sorted(broken[d]) for d in SOUND_DEVS}, negr.distinct, negr.wall))
-    for name, r in res.items():
-        lib.require_ok(r, name)
-        ctx.log("%s: Soundness, AdminGate, KeyAgreement hold, %d distinct states (%.1fs)" % (name, r.distinct, r.wall))
-    table = res["gen_sound"].behaviours
-    by = {}
-    for b in table:
-        by[b["verdict"]] = by.get(b["verdict"], 0) + 1
-    ctx.log("verdict table: %d abstract cases %s" % (len(table), by))
-    if len(by) != 3:
-        raise lib.Inconclusive("the verdict table must contain all three classes: %s" % by)
-    inp = lib.write_lines(os.path.join(ctx.work, "c07_table.ndjson"), table)
-    g = lib.run_go(ctx, "server", "TestVerifC07Replay", env={"VERIF_IN": inp, "GOGC": "400"}, timeout=2400,
-                   prefixes=("c06", "c07", "shared"))
+    # `go test` is started now: compiling and linking the harness overlap with TLC; the test waits for <inp>.ready
+    inp = os.path.join(ctx.work, "c07_table.ndjson")
+    gof = pool.submit(lambda: lib.run_go(ctx, "server", "TestVerifC07Replay", env={"VERIF_IN": inp, "VERIF_IN_WAIT": "1", "GOGC": "400"},
+                                         timeout=3000, prefixes=("c06", "c07", "shared")))
+    try:
+        res = {k: f.result() for k, f in jobs.items()}
+        negr, broken = negf.result()
+        for d in SOUND_DEVS:
+            want = "AdminGate" if d == "AdminNoSid" else "Soundness"
+            if want not in broken.get(d, set()):
+                raise lib.Inconclusive("deviation %s does not break %s in the model (breaks %s): the invariant would be vacuous" % (d, want, broken.get(d)))
+        ctx.log("vacuity: %s (%d states, %.1fs)" % ({d: sorted(broken[d]) for d in SOUND_DEVS}, negr.distinct, negr.wall))
+        for name, r in res.items():
+            lib.require_ok(r, name)
+            ctx.log("%s: Soundness, AdminGate, KeyAgreement hold, %d distinct states (%.1fs)" % (name, r.distinct, r.wall))
+        table = res["gen_sound"].behaviours
+        by = {}
+        for b in table:
+            by[b["verdict"]] = by.get(b["verdict"], 0) + 1
+        ctx.log("verdict table: %d abstract cases %s" % (len(table), by))
+        if len(by) != 3:
+            raise lib.Inconclusive("the verdict table must contain all three classes: %s" % by)
+        if os.environ.get("VERIF_C07_CORRUPT"):  # self-test of the binding: a corrupted expectation must show up
+            for b in table:
+                if b["tampers"] == ["other"] and b["verdict"] == "either-but-same-identity":
+                    b["verdict"] = "must-redirect"
+        lib.write_lines(inp, table)
+        open(inp + ".ready", "w").write("go")
+    except BaseException:
+        open(inp + ".ready", "w").write("abort")
+        raise
+    finally:
+        pool.shutdown(wait=False)
+    g = gof.result()
     lib.collect_go(ctx, g)
     gs = g["stats"]
     ctx.log("replay: %d real clients, %d single-bit flips, %d multi-byte edits, %d environment presentations on %d base packets; %.1fs" % (
@@ -116,8 +126,9 @@ def run(ctx):
                 "x method {served, unserved} x sid {0, non-0} x server key {right, wrong}; concrete: (A) every untampered case as real clients (3 signatures, %s draws), "
                 "(B1) per transport/signature %s: every bit of record/handshake header, version, random, session id, key share (+headers), extensions length resp. "
                 "hidden name/value, request line, terminator%s, + %s random multi-byte edits; (B2) every untampered environment x every offset class x "
-                "(no edit, one bit per class, one pair per two classes); non-trivial = tampered or excluded by the statement; distinct = distinct abstract cases hit" % (
-                    maxt, "2" if q else "7", "1 hello" if q else "3 hellos", " + 400 random other bits" if q else " = every bit of the packet", "300" if q else "3000"),
+                "(no edit, %s per class%s); non-trivial = tampered or excluded by the statement; distinct = distinct abstract cases hit" % (
+                    maxt, "2" if q else "7", "1 hello" if q else "3 hellos", " + 400 random other bits" if q else " = every bit of the packet", "300" if q else "3000",
+                    "one bit" if q else "three bits", "" if q else ", one pair per two classes"),
         "samples": g["samples"],
         "traces_validated_against_impl": int(g["distinct_nontrivial"]),
         "abstract_cases_in_table": len(table),
@@ -130,7 +141,7 @@ def run(ctx):
 
 
 def replay(ctx, path):
-    r = lib.run_tlc(ctx, "HandshakeGen", "HandshakeGen.cfg", _sub("sound", 2), tag="gen_sound", workers=4, timeout=900, env=JVM)
+    r = lib.run_tlc(ctx, "HandshakeGen", "HandshakeGen.cfg", _sub("sound", 3), tag="gen_sound", workers=4, timeout=900, env=JVM)
     inp = lib.write_lines(os.path.join(ctx.work, "c07_table.ndjson"), r.behaviours)
     res = lib.run_go(ctx, "server", "TestVerifC07Replay", env={"VERIF_REPLAY": os.path.abspath(path), "VERIF_IN": inp},
                      extra_args=["-v"], prefixes=("c06", "c07", "shared"))
